@@ -75,6 +75,26 @@ class Owner(A):
     pass
 
 
+import abc as _abc
+
+
+class Proto(_abc.ABC):
+    """an abstract base class with VIRTUAL subclasses: U is registered, V answers through __subclasshook__"""
+
+
+Proto.register(U)
+
+
+class Hooked(_abc.ABC):
+    @classmethod
+    def __subclasshook__(cls, sub):
+        return True if getattr(sub, "_vt_hooked", False) else NotImplemented
+
+
+class V(HasTraits):
+    _vt_hooked = True
+
+
 class OwnerSub(Owner):
     """an instance of a SUBCLASS of the receiver's class (This accepts it)"""
 
@@ -240,6 +260,8 @@ def mk_value(ex, kind, tag="v"):
         return B()
     if kind == "instU":
         return U()
+    if kind == "instV":
+        return V()
     if kind == "instOwner":
         return Owner()
     if kind == "instOwnerSub":
@@ -435,6 +457,13 @@ CONFIGS = {
                         ["tuple_is", "tuple_fs", "tuple_ii", "tuple_if", "tuple_fi", "tuple_1", "none"]),
     "EitherTuplesNone": (lambda ex: Either(Tuple(CInt, Int), Tuple(Float, Str), None), ["tuple_is", "tuple_fs", "tuple_ii", "none", "int"]),
     "EitherMapComplex": (lambda ex: Either(Map({"yes": 1, 1: 2}), Complex), FNUM + ["str"]),
+    # Trait(None, <class>) / TraitInstance and Instance(<class>): what counts as an instance is what isinstance() says -
+    # classes registered with an ABC and classes an ABC recognises through __subclasshook__ included
+    "TraitNoneABC": (lambda ex: __import__("traits.api", fromlist=["x"]).Trait(None, Proto), ["none", "instU", "instV", "instA", "int", "object"]),
+    "TraitNoneHooked": (lambda ex: __import__("traits.api", fromlist=["x"]).Trait(None, Hooked), ["none", "instU", "instV", "instA", "int"]),
+    "InstanceABC": (lambda ex: Instance(Proto), ["none", "instU", "instV", "instA", "int"]),
+    "TraitNoneSized": (lambda ex: __import__("traits.api", fromlist=["x"]).Trait(None, __import__("collections.abc", fromlist=["x"]).Sized),
+                       ["none", "list", "int", "str", "instA"]),
     # Trait(<type>) / TraitCoerceType: "a value of the type, or of a type that can be coerced to it" (float <- int; complex <- float, int)
     "TraitFloatType": (lambda ex: __import__("traits.api", fromlist=["x"]).Trait(float),
                        ["none", "bool", "int64", "intsub64", "float", "floatsub", "complex", "str", "object"]),
